@@ -533,6 +533,11 @@ def rule_builder_bal(cx, tier):
                 ev[c.bb] = ("try", +1)
             elif ops <= TRY_CLOSE:
                 ev[c.bb] = ("try", -1)
+        if ev and not any(e == ("try", +1) for e in ev.values()):
+            # a method that only closes catch points (break / continue leaving try blocks that another method opened,
+            # see R-TRY-EXIT) has nothing to balance within itself
+            for bb in [b for b, e in ev.items() if e[0] == "try"]:
+                del ev[bb]
         if ev:
             # the patch of the catch-entry placeholder that follows a TryStart splits the emitted code into the part
             # executed when the try block completes and the part executed when an error was caught
